@@ -284,6 +284,49 @@ def argrole_rule(model, res):
     return n_sites
 
 
+# Maximum drawdown from its definition: scan once; the running peak is the largest value before bar i; the candidate is
+# the RELATIVE decline from that peak to bar i; the best candidate and its (peak, trough) indices are kept, starting from
+# "no decline" (0 at index 0) so that a never-falling series reports 0; the reported number is recomputed from the series
+# at exactly those indices of the FULL series.
+REF_DRAWDOWN_SCAN = '''
+def _withdraw_with_high_low(arr):
+    best = 0
+    best_peak = 0
+    best_trough = 0
+    peak = 0
+    for i in range(1, len(arr)):
+        if arr[i - 1] > arr[peak]:
+            peak = i - 1
+        decline = (arr[peak] - arr[i]) / arr[peak]
+        if decline > best:
+            best_trough = i
+            best_peak = peak
+            best = decline
+    return best, best_peak, best_trough
+'''
+
+REF_MAX_DRAWDOWN = '''
+def max_draw_down(net_value):
+    r = _withdraw_with_high_low(net_value.to_list())
+    hi = net_value.iloc[r[1]]
+    lo = net_value.iloc[r[2]]
+    return (hi - lo) / hi
+'''
+
+
+def drawdown_rule(model, res):
+    """R-ARGMAX by identity with the reference scan (canonical loop transfer relation: names and the order of the
+    independent updates do not matter): the criterion that selects (peak, trough) is the relative decline that is
+    reported, the running peak is taken over the bars BEFORE i of the whole series, the start value is 'no decline', and
+    max_draw_down reads the full series at the returned indices."""
+    formula_check(res, model, "result.metrics.calculator._withdraw_with_high_low", REF_DRAWDOWN_SCAN,
+                  "drawdown scan: running peak over bars < i, candidate = relative decline, best kept with its indices, start = no decline",
+                  rule="R-ARGMAX")
+    formula_check(res, model, "result.metrics.calculator.max_draw_down", REF_MAX_DRAWDOWN,
+                  "reported drawdown = (peak - trough)/peak of the full series at the scan's indices", opaque=["_withdraw_with_high_low"],
+                  rule="R-ARGMAX")
+
+
 def run(model, tier="quick"):
     res = Result("C20", EXPLANATION)
     res.rules = ["R-FORMULA", "R-SIB", "R-ARGMAX", "R-SIGN", "R-ARGROLE"]
@@ -296,7 +339,7 @@ def run(model, tier="quick"):
     formula_check(res, model, "result.metrics.core.performance_metrics", REF_METRICS,
                   "metric registry: each metric is computed from the series in its role; interval and duration in days",
                   opaque=opaque)
-    argmax_rule(model, res)
+    drawdown_rule(model, res)
     n = argrole_rule(model, res)
     res.floor("registry_call_sites", n, 8)
     res.floor("formula_targets", sum(1 for o in res.obligations if o.rule == "R-FORMULA"), 9)
